@@ -70,6 +70,14 @@ Theorem C01_set_thickness_thk :
 Proof. exact (@set_thickness_thk). Qed.
 Print Assumptions C01_set_thickness_thk.
 
+Theorem C01_set_thickness_infinite_object :
+  forall (v z1 : R) (rest : list R),
+       k_c01_set_thickness XOps (Fin v) 0 (NInf :: Fin z1 :: map Fin rest)
+         (Z.of_nat (Datatypes.length (NInf :: Fin z1 :: map Fin rest))) =
+       Fin (z1 + - v + - z1) :: Fin (z1 + - z1) :: map (fun z : R => Fin (z + - z1)) rest.
+Proof. exact (@set_thickness_infinite_object). Qed.
+Print Assumptions C01_set_thickness_infinite_object.
+
 Theorem C01_set_thickness_lens :
   forall (l : lensR) (v : T ROps) (k : Z) (l' : lensR),
        set_thickness l v k = Some l' ->
@@ -100,13 +108,13 @@ Theorem C01_thickness_last_write_wins :
 Proof. exact (@thickness_last_write_wins). Qed.
 Print Assumptions C01_thickness_last_write_wins.
 
-Theorem C01_set_radius_exact_partial :
+Theorem C01_set_radius_exact :
   forall O : Ops, forall (l : lens O) (v : T O) (k : Z) (l' : lens O),
        set_radius l v k = Some l' ->
        edits_only l l' k
          (fun s : surf O =>
           match s_kind s with
-          | GPlane => with_geom s GStd v (Some (ofZ 0)) (s_c s)
+          | GPlane => with_geom s GStd v (Some (conic_read s)) (s_c s)
           | GStd => with_geom s GStd v (s_k s) (s_c s)
           | GEven => with_geom s GEven v (s_k s) (s_c s)
           | GOther => with_geom s GOther v (s_k s) (s_c s)
@@ -115,8 +123,16 @@ Theorem C01_set_radius_exact_partial :
         nth_error (surfs l) (Z.to_nat k) = Some s ->
         s_kind s <> GPlane ->
         nth_error (surfs l') (Z.to_nat k) = Some (with_geom s (s_kind s) v (s_k s) (s_c s))).
-Proof. exact (@set_radius_exact_partial). Qed.
-Print Assumptions C01_set_radius_exact_partial.
+Proof. exact (@set_radius_exact). Qed.
+Print Assumptions C01_set_radius_exact.
+
+Theorem C01_set_radius_keeps_conic :
+  forall O : Ops, forall (l : lens O) (v : T O) (k : Z) (l' : lens O),
+       set_radius l v k = Some l' ->
+       map conic_read (surfs l') = map conic_read (surfs l) /\
+       map s_c (surfs l') = map s_c (surfs l) /\ positions l' = positions l /\ n_post l' = n_post l.
+Proof. exact (@set_radius_keeps_conic). Qed.
+Print Assumptions C01_set_radius_keeps_conic.
 
 Theorem C01_set_conic_exact :
   forall O : Ops, forall (l : lens O) (v : T O) (k : Z) (l' : lens O),
@@ -181,11 +197,19 @@ Theorem C01_pickup_conic_satisfied :
        (0 <= pk_tgt p)%Z ->
        pickup_apply l p = Some l' ->
        exists c : R,
-         conic_at l (pk_src p) = Some c /\
-         conic_at l' (pk_src p) = Some c /\
-         conic_at l' (pk_tgt p) = Some (pk_scale p * c + pk_offset p)%R.
+         cread l (pk_src p) = Some c /\
+         cread l' (pk_src p) = Some c /\
+         cread l' (pk_tgt p) = Some (pk_scale p * c + pk_offset p)%R.
 Proof. exact (@pickup_conic_satisfied). Qed.
 Print Assumptions C01_pickup_conic_satisfied.
+
+Theorem C01_conic_pickup_succeeds :
+  forall (l : lensR) (p : pickupR) (s t : surfR),
+       pk_attr p = AConic ->
+       nthS l (pk_src p) = Some s ->
+       nthS l (pk_tgt p) = Some t -> exists l' : lensR, pickup_apply l p = Some l'.
+Proof. exact (@conic_pickup_succeeds). Qed.
+Print Assumptions C01_conic_pickup_succeeds.
 
 Theorem C01_pickup_thickness_satisfied :
   forall (l : lensR) (p : pickupR) (l' : lensR),
@@ -233,15 +257,18 @@ Print Assumptions C01_mrh_solve_correct.
 Theorem C01_mrh_kernel_is_shift :
   forall (ya ua : list R) (h : R) (idx : Z) (ss : list asurf),
        (0 <= idx)%Z ->
-       k_c01_mrh_apply ROps ya ua h idx (map a_z ss) (Z.of_nat (Datatypes.length ss)) =
+       k_c01_mrh_apply ROps ya ua idx h (map a_z ss) (Z.of_nat (Datatypes.length ss)) =
        map a_z
          (firstn (Z.to_nat idx) ss ++
-          shift_from ((h - getZ (O:=ROps) ya idx) / getZ (O:=ROps) ua idx) (skipn (Z.to_nat idx) ss)).
+          shift_from
+            ((h - getZ (O:=ROps) ya idx) / (if (idx >? 0)%Z then getZ (O:=ROps) ua (idx - 1) else getZ (O:=ROps) ua idx))
+            (skipn (Z.to_nat idx) ss)).
 Proof. exact (@mrh_kernel_is_shift). Qed.
 Print Assumptions C01_mrh_kernel_is_shift.
 
-Theorem C01_mrh_kernel_places_partial :
+Theorem C01_mrh_solve_places :
   forall (pre : list asurf) (s : asurf) (post : list asurf) (st : R * R * R) (h : T ROps),
+       pre <> nil ->
        a_obj s = false ->
        let ss := pre ++ s :: post in
        let rec := atrace ss st in
@@ -249,16 +276,12 @@ Theorem C01_mrh_kernel_places_partial :
        let
        '(_, up, _) := afinal pre st in
         up <> 0%R ->
-        snd (nth (Datatypes.length pre) rec (0%R, 0%R)) = up ->
-        forall ss' : list asurf,
-        map a_z ss' =
-        k_c01_mrh_apply ROps (map fst rec) (map snd rec) h idx (map a_z ss)
-          (Z.of_nat (Datatypes.length ss)) ->
-        ss' =
-        pre ++ shift_from ((h - fst (nth (Datatypes.length pre) rec (0%R, 0%R))) / up) (s :: post) ->
-        fst (nth (Datatypes.length pre) (atrace ss' st) (0%R, 0%R)) = h.
-Proof. exact (@mrh_kernel_places_partial). Qed.
-Print Assumptions C01_mrh_kernel_places_partial.
+        let zs' :=
+          k_c01_mrh_apply ROps (map fst rec) (map snd rec) idx h (map a_z ss)
+            (Z.of_nat (Datatypes.length ss)) in
+        fst (nth (Datatypes.length pre) (atrace (with_zs ss zs') st) (0%R, 0%R)) = h.
+Proof. exact (@mrh_solve_places). Qed.
+Print Assumptions C01_mrh_solve_places.
 
 Theorem C01_image_solve_focus :
   forall (pre : list asurf) (img : asurf) (st : R * R * R),
@@ -274,9 +297,23 @@ Proof. exact (@image_solve_focus). Qed.
 Print Assumptions C01_image_solve_focus.
 
 Theorem C01_image_solve_kernel :
-  forall (ya ua zs : list R) (z : R),
-       k_c01_image_solve ROps ya ua (zs ++ z :: nil) =
-       zs ++ (z - getZ (O:=ROps) ya (-1) / getZ (O:=ROps) ua (-1))%R :: nil.
+  forall (ya ua zs : list R) (y u_in u_out z : R),
+       k_c01_image_solve ROps (ya ++ y :: nil) (ua ++ u_in :: u_out :: nil) (zs ++ z :: nil) =
+       zs ++ (z - y / u_in)%R :: nil.
 Proof. exact (@image_solve_kernel). Qed.
 Print Assumptions C01_image_solve_kernel.
+
+Theorem C01_image_solve_places :
+  forall (pre : list asurf) (img : asurf) (st : R * R * R),
+       pre <> nil ->
+       a_obj img = false ->
+       let ss := pre ++ img :: nil in
+       let rec := atrace ss st in
+       let
+       '(_, up, _) := afinal pre st in
+        up <> 0%R ->
+        let zs' := k_c01_image_solve ROps (map fst rec) (map snd rec) (map a_z ss) in
+        fst (nth (Datatypes.length pre) (atrace (with_zs ss zs') st) (0%R, 0%R)) = 0%R.
+Proof. exact (@image_solve_places). Qed.
+Print Assumptions C01_image_solve_places.
 
